@@ -343,17 +343,25 @@ def check_depth(c):
     return None
 
 
+def checker_of(evaluator):
+    return check_depth if "depth" in (evaluator or "") else check_lookup
+
+
 def shrink_failure(evaluator, case):
+    chk = checker_of(evaluator)
+    xp0 = case.get("xp")
+
     def ok(c):
-        return isinstance(c.get("tree"), (dict, list)) and c.get("mode") in ("n0", "wrap") and isinstance(c.get("xp"), str) \
-            and not in_known(c) and check_lookup(c) is not None
+        # the tree may shrink; the path text stays as it is
+        return isinstance(c.get("tree"), (dict, list)) and c.get("mode") in ("n0", "wrap") and c.get("xp") == xp0 \
+            and not in_known(c) and (chk is check_lookup or safe_case(c)) and chk(c) is not None
 
     return core.shrink(case, ok, budget=400)
 
 
 def replay(rp):
     c = rp["case"]
-    bad = check_lookup(c)
+    bad = checker_of(rp.get("evaluator"))(c)
     print("case:", c)
     print("result:", "property holds" if bad is None else bad)
     return 1 if bad else 0
